@@ -8,6 +8,7 @@
 #include "llbuild/BuildSystem/BuildKey.h"
 #include "llbuild/Basic/FileInfo.h"
 #include "llbuild/Basic/StringList.h"
+#include "llbuild/Basic/FileSystem.h"
 using namespace llbuild;
 using namespace llbuild::buildsystem;
 using llbuild::basic::FileInfo;
@@ -99,6 +100,7 @@ static std::string showKey(const BuildKey& k) {
   }
 }
 
+static std::vector<FileInfo> g_slots;
 static std::string handle(const SV& t) {
   const std::string& c = t[0];
   if (c == "pip" && t.size() == 3)
@@ -123,6 +125,21 @@ static std::string handle(const SV& t) {
       return "INCONSISTENT direct=" + b0 + " copy=" + b1 + " move=" + b2 + " moveassign=" + b3 + " redecoded=" + b4;
     return b0;
   }
+  // value_many <kind 10|17> <n>: n distinct infos; encode, decode, compare every info; also a second value that
+  // differs only in the last info must encode differently
+  if (c == "value_many" && t.size() == 3) {
+    int kind = atoi(t[1].c_str()); size_t n = strtoull(t[2].c_str(), 0, 10);
+    std::vector<FileInfo> infos(n); memset(infos.data(), 0, n * sizeof(FileInfo));
+    for (size_t i = 0; i < n; i++) { infos[i].inode = i + 1; infos[i].size = 7 * i; }
+    BuildValue v = makeValue(kind, 5, infos, SV{});
+    auto d = v.toData(); BuildValue rd = BuildValue::fromData(d);
+    if ((int)rd.getKind() != kind) return "MISMATCH kind " + std::to_string((int)rd.getKind());
+    if (rd.getNumOutputs() != n) return "MISMATCH count " + std::to_string(rd.getNumOutputs());
+    for (size_t i = 0; i < n; i++) if (!(rd.getNthOutputInfo(i) == infos[i]) || rd.getNthOutputInfo(i).mode != infos[i].mode) return "MISMATCH info " + std::to_string(i);
+    infos[n - 1].size ^= 1; BuildValue v2 = makeValue(kind, 5, infos, SV{});
+    if (v2.toData() == d) return "MISMATCH collision: a value differing in the last output encodes identically";
+    return "OK " + std::to_string(n) + " " + std::to_string(d.size());
+  }
   if (c == "value_dec" && t.size() == 2) {
     std::string b = unhex(t[1]); core::ValueType d(b.begin(), b.end());
     BuildValue v = BuildValue::fromData(d);
@@ -135,6 +152,22 @@ static std::string handle(const SV& t) {
   if (c == "key_dec" && t.size() == 2) {
     BuildKey k = BuildKey::fromData(core::KeyType(unhex(t[1])));
     return showKey(k);
+  }
+  // fs_obs <slot> <mode 0|1|2> <link 0|1> <hexpath>: observe through the real FileSystem wrappers, keep in a slot
+  if (c == "fs_obs" && t.size() == 5) {
+    static std::unique_ptr<basic::FileSystem> fss[3];
+    if (!fss[0]) { fss[0] = basic::createLocalFileSystem(); fss[1] = basic::DeviceAgnosticFileSystem::from(basic::createLocalFileSystem());
+                   fss[2] = basic::ChecksumOnlyFileSystem::from(basic::createLocalFileSystem()); }
+    int slot = atoi(t[1].c_str()), mode = atoi(t[2].c_str()); bool link = t[3] == "1";
+    FileInfo fi = link ? fss[mode]->getLinkInfo(unhex(t[4])) : fss[mode]->getFileInfo(unhex(t[4]));
+    if ((int)g_slots.size() <= slot) g_slots.resize(slot + 1);
+    g_slots[slot] = fi;
+    return showFI(fi) + " " + (fi.isMissing() ? "1" : "0");
+  }
+  if (c == "fs_eq" && t.size() == 3) {
+    const FileInfo& a = g_slots[atoi(t[1].c_str())]; const FileInfo& b = g_slots[atoi(t[2].c_str())];
+    bool e = (a == b), ne = (a != b);
+    return std::string(e ? "1" : "0") + (e == ne ? " INCONSISTENT-NEQ" : "");
   }
   // probe_codec: tag byte of an instance of every value kind (enum order), identifierForKind for every key kind,
   // kindForIdentifier for every char
@@ -153,9 +186,9 @@ static std::string handle(const SV& t) {
 int main() {
   std::string line;
   while (std::getline(std::cin, line)) {
-    if (line.empty()) { puts(""); continue; }
+    if (line.empty()) { puts(""); fflush(stdout); continue; }
     std::string r = handle(split(line, ' '));
-    fputs(r.c_str(), stdout); fputc('\n', stdout);
+    fputs(r.c_str(), stdout); fputc('\n', stdout); fflush(stdout);
   }
   return 0;
 }
